@@ -942,6 +942,35 @@ func modeTotal(seed uint64, n int, out *sx.Out) {
 			}
 		}
 	}
+	// every string-valued field of a few typical rules given each small or off-by-one length (an empty path in a watch,
+	// a key cut to nothing): the decoder indexes into these strings
+	for bi, base := range []string{
+		"-w /etc/passwd -p wa", "-w /etc/passwd -p wa -k ident", "-w /etc/ -p r",
+		"-a always,exit -F path=/etc/shadow -F perm=wa", "-a always,exit -F dir=/etc -F perm=r -F key=k1",
+		"-a always,exit -S open -F path=/etc/shadow -F perm=wa -F key=k1", "-a always,exit -F arch=b64 -S execve -F exe=/bin/ls -k a -k b",
+		"-a always,exit -F subj_user=u -F obj_type=t -F key=zz", "-a never,exclude -F msgtype=1300", "-a always,exit -S all -k onlykey",
+	} {
+		b, err := buildLine(base)
+		if err != nil {
+			continue
+		}
+		nf := int(binary.LittleEndian.Uint32(b[8:]))
+		for k := 0; k < nf && k < 64; k++ {
+			switch binary.LittleEndian.Uint32(b[4*(67+k):]) {
+			case 13, 14, 15, 16, 17, 19, 20, 21, 22, 23, 105, 107, 112, 210:
+			default:
+				continue
+			}
+			orig := binary.LittleEndian.Uint32(b[4*(131+k):])
+			for _, v := range []uint32{0, 1, orig - 1, orig + 1} {
+				m := append([]byte(nil), b...)
+				binary.LittleEndian.PutUint32(m[4*(131+k):], v)
+				out.Begin(map[string]interface{}{"mode": "modeTotal", "call": "rule.ToCommandLine(wire, false)", "base": base, "string_field_index": k, "length_word": v, "wire_hex": hex.EncodeToString(m)})
+				oc, detail := guarded(func() (string, error) { return rule.ToCommandLine(rule.WireFormat(m), false) })
+				out.Case(fmt.Sprintf("TWire %s %s", sx.Hx(m), oc), map[string]interface{}{"base_rule": bi, "line": base, "string_field_index": k, "length_word": v, "outcome": oc, "detail": detail}, "string-length-sweep/"+oc, oc == "OOk" || oc == "OErr")
+			}
+		}
+	}
 	// arbitrary lines
 	frags := []string{"-a", "-A", "-F", "-C", "-S", "-k", "-w", "-p", "-D", "--", "-", "exit,always", "always,exit", "uid=0", "a0&=0xffffffffff", "'", "\"", "\\", " ", "=", "-x", "-S=1", "-k=", "--a=exit,never", "auid!=4294967295", "x", "\t", "-F=", "arch=b64", "-S 5000", "path=/a b", "''", "\"\""}
 	for i := 0; i < n/3; i++ {
